@@ -275,6 +275,7 @@ class Lib:
         self.ROUND = {'nearest': rc4[0], 'down': rc4[1], 'up': rc4[2], 'zero': rc4[3]}
         self.rounding = None       # when set, each call runs under this rounding mode
         self._depth = 0
+        self.tick = None          # progress heartbeat installed by the worker
         if numeric_locale is not None:
             if self.vp_set_numeric_locale(numeric_locale) != 0:
                 raise HarnessError('numeric locale %r is not available' % numeric_locale)
@@ -304,6 +305,8 @@ class Lib:
     def call(self, name, *args):
         fn = self.f[name]
         self.ncalls += 1
+        if self.tick is not None and (self.ncalls & 1023) == 0:
+            self.tick()
         self.calls_by_name[name] = self.calls_by_name.get(name, 0) + 1
         if not self.monitors:
             return fn(*args)
